@@ -31,8 +31,8 @@ META = {
  },
  "C01": {
   "engine": "verus-weave + kani-contracts", "design_ref": "DESIGN.md §4.2, §4.4-4.6, §5 C01",
-  "technique": "Verus proof of eval_binary (reference reduction) + Kani contracts on the order functions (bounded), unary composition (bounded) and the sign rule (complete)",
-  "level_text": "Partial. Proved for all sizes: reducing an operand array under a given order is the nearest-live-neighbour reduction. Complete finite domain: unary/binary role of sign-like operators. Bounded: order functions (3 operators quick / 4 thorough, priorities 0..=99, depth 0..=2: permutation, descending priority, left-to-right among equals with only AC-invisible regrouping, unary-carrying operator last in its group) and unary composition (chains <= 4).",
+  "technique": "Verus proofs of eval_binary (reference reduction) and of unary composition (UnaryOp::apply, FlatOp::apply) + Kani contracts on the order functions (bounded), append_after* (bounded) and the sign rule (complete) + sampled native probes at large sizes",
+  "level_text": "Partial. Proved for all sizes: reducing an operand array under a given order is the nearest-live-neighbour reduction; a chain of unary operators composes right-to-left and runs after the binary operator it sits on (UnaryOp::apply, remove_latest, FlatOp::apply). Complete finite domain: unary/binary role of sign-like operators. Bounded: order functions (3 operators quick / 4 thorough, priorities 0..=99, depth 0..=2: permutation, descending priority, left-to-right among equals with only AC-invisible regrouping, unary-carrying operator last in its group) and append_after / append_after_iter (small chains; long chains only by a sampled native probe).",
   "level_note": "Not covered: tokenizer, make_expression (which operator a parenthesised unary is attached to — assumption A-attach), constant folding. Bounded parts are bounded stand-ins, not proofs.",
  },
  "C13": {
